@@ -44,6 +44,8 @@ struct Prop {
 	virtual void coverage(Engine &, J &facts) { (void) facts; }
 	// static description for the evidence file
 	virtual std::string rule() const { return ""; }
+	// violation classes this property does not judge (the run is skipped, not reported)
+	virtual bool owns(const std::string &cls) const { (void) cls; return true; }
 };
 
 Prop *make_prop(const std::string &id);
